@@ -41,13 +41,21 @@ func pkgOf(t reflect.Type) string {
 
 // walkStruct visits every string reachable in v with the tab key of the field that holds it.
 func walkStruct(v reflect.Value, key string, depth int, visit func(key, val string)) {
+	walkStructIn(v, key, "", depth, visit)
+}
+
+// root = package of the template data struct being walked.  A struct of ANOTHER package nested in it
+// (version2.Header inside version1.Location.ProxySetHeaders) is not printed field by field by the
+// version1 templates but only through a helper that quotes it (generateProxySetHeaders, %q); the
+// per-field classes of that type describe its sites in the version2 templates and do not apply.
+func walkStructIn(v reflect.Value, key, root string, depth int, visit func(key, val string)) {
 	if depth > 12 {
 		return
 	}
 	switch v.Kind() {
 	case reflect.Ptr, reflect.Interface:
 		if !v.IsNil() {
-			walkStruct(v.Elem(), key, depth+1, visit)
+			walkStructIn(v.Elem(), key, root, depth+1, visit)
 		}
 	case reflect.String:
 		if key != "" {
@@ -58,12 +66,17 @@ func walkStruct(v reflect.Value, key string, depth int, visit func(key, val stri
 		if t.PkgPath() == "" || !strings.Contains(t.PkgPath(), "internal/configs/version") {
 			return
 		}
+		if root == "" {
+			root = pkgOf(t)
+		} else if pkgOf(t) != root {
+			return
+		}
 		for i := 0; i < t.NumField(); i++ {
 			f := t.Field(i)
 			if f.PkgPath != "" {
 				continue
 			}
-			walkStruct(v.Field(i), pkgOf(t)+"."+t.Name()+"."+f.Name, depth+1, visit)
+			walkStructIn(v.Field(i), pkgOf(t)+"."+t.Name()+"."+f.Name, root, depth+1, visit)
 		}
 	case reflect.Slice, reflect.Array:
 		for i := 0; i < v.Len(); i++ {
@@ -71,7 +84,7 @@ func walkStruct(v reflect.Value, key string, depth int, visit func(key, val stri
 			if e.Kind() == reflect.String {
 				visit(key+"[]", e.String())
 			} else {
-				walkStruct(e, key, depth+1, visit)
+				walkStructIn(e, key, root, depth+1, visit)
 			}
 		}
 	case reflect.Map:
@@ -83,7 +96,7 @@ func walkStruct(v reflect.Value, key string, depth int, visit func(key, val stri
 			if e.Kind() == reflect.String {
 				visit(key+"[val]", e.String())
 			} else {
-				walkStruct(e, key, depth+1, visit)
+				walkStructIn(e, key, root, depth+1, visit)
 			}
 		}
 	}
